@@ -174,6 +174,9 @@ func NewCSVLogCommand$1$1$1 returns (err)
   dyncall 1 csv.CSVLogCmd
   modifies *
   modifies ghost(cbLen, cbErr, cbNode, cbStop, cbRet, cbLineNo, cbLine, cbHeader, cbElems, cbNElems, scRd, scPos, privLo, evOf, accKey, accP, accN, accH, bufSink, bufSticky, sinkFailed, sinkPend, prLen, prSink, prArg, prArgs, csvLen, csvW, csvN, csvRow, tnodes, tdepth, tmax, tmapOf, jlen, tvLen, tv, tseg, tvSet, adLen, adName, adVal, adSep, adRoot, procLen, procTime, procSrc, lastOpen, cfgRd)
+  // the command is actually run (exactly this call) and its error is what the closure returns
+  ghost after dyncall 1 { let cmdErr := #ret }
+  ensures @runs-the-command [C17 C16] err == cmdErr
   ghost before dyncall 1 {
     assert @wiring [C16 C06 C13] #arg0 == streams[0] && #arg1 == cfg
   }
@@ -185,6 +188,9 @@ func NewCSVLogCommand$1$1 returns (err)
   dyncall 1 csv.withFileReaders
   modifies *
   modifies ghost(cbLen, cbErr, cbNode, cbStop, cbRet, cbLineNo, cbLine, cbHeader, cbElems, cbNElems, scRd, scPos, privLo, evOf, accKey, accP, accN, accH, bufSink, bufSticky, sinkFailed, sinkPend, prLen, prSink, prArg, prArgs, csvLen, csvW, csvN, csvRow, tnodes, tdepth, tmax, tmapOf, jlen, tvLen, tv, tseg, tvSet, adLen, adName, adVal, adSep, adRoot, procLen, procTime, procSrc, lastOpen, cfgRd)
+  // the command is actually run (exactly this call) and its error is what the closure returns
+  ghost after dyncall 1 { let cmdErr := #ret }
+  ensures @runs-the-command [C17 C16] err == cmdErr
   ghost before dyncall 1 {
     assert @files [C16] len(#arg0) == 1 && #arg0[0] == o.GlobalConfig.LogFileName
     assert @iso-dates [C13] cfg.ReporterConfig.OutputTimeFormat == "2006-01-02" && cfg.ReporterConfig.CSVSeparator == 44
@@ -197,6 +203,9 @@ func NewCSVDatabaseCommand$1$1$1 returns (err)
   dyncall 1 csv.CSVDatabaseCmd
   modifies *
   modifies ghost(cbLen, cbErr, cbNode, cbStop, cbRet, cbLineNo, cbLine, cbHeader, cbElems, cbNElems, scRd, scPos, privLo, evOf, accKey, accP, accN, accH, bufSink, bufSticky, sinkFailed, sinkPend, prLen, prSink, prArg, prArgs, csvLen, csvW, csvN, csvRow, tnodes, tdepth, tmax, tmapOf, jlen, tvLen, tv, tseg, tvSet, adLen, adName, adVal, adSep, adRoot, procLen, procTime, procSrc, lastOpen, cfgRd)
+  // the command is actually run (exactly this call) and its error is what the closure returns
+  ghost after dyncall 1 { let cmdErr := #ret }
+  ensures @runs-the-command [C17 C16] err == cmdErr
   ghost before dyncall 1 {
     assert @streams [C16] #arg0 == streams[0]
     assert @wiring [C16 C13] #arg1.ParserConfig == o.ParserConfig && #arg1.ReporterConfig == o.ReporterConfig
@@ -208,6 +217,9 @@ func NewCSVDatabaseCommand$1$1 returns (err)
   dyncall 1 csv.withFileReaders
   modifies *
   modifies ghost(cbLen, cbErr, cbNode, cbStop, cbRet, cbLineNo, cbLine, cbHeader, cbElems, cbNElems, scRd, scPos, privLo, evOf, accKey, accP, accN, accH, bufSink, bufSticky, sinkFailed, sinkPend, prLen, prSink, prArg, prArgs, csvLen, csvW, csvN, csvRow, tnodes, tdepth, tmax, tmapOf, jlen, tvLen, tv, tseg, tvSet, adLen, adName, adVal, adSep, adRoot, procLen, procTime, procSrc, lastOpen, cfgRd)
+  // the command is actually run (exactly this call) and its error is what the closure returns
+  ghost after dyncall 1 { let cmdErr := #ret }
+  ensures @runs-the-command [C17 C16] err == cmdErr
   ghost before dyncall 1 {
     assert @files [C16] len(#arg0) == 1 && #arg0[0] == o.GlobalConfig.DbFileName
   }
@@ -218,6 +230,9 @@ func NewCSVDatabaseResolvedCommand$1$1 returns (err)
   dyncall 1 csv.withFileReaders
   modifies *
   modifies ghost(cbLen, cbErr, cbNode, cbStop, cbRet, cbLineNo, cbLine, cbHeader, cbElems, cbNElems, scRd, scPos, privLo, evOf, accKey, accP, accN, accH, bufSink, bufSticky, sinkFailed, sinkPend, prLen, prSink, prArg, prArgs, csvLen, csvW, csvN, csvRow, tnodes, tdepth, tmax, tmapOf, jlen, tvLen, tv, tseg, tvSet, adLen, adName, adVal, adSep, adRoot, procLen, procTime, procSrc, lastOpen, cfgRd)
+  // the command is actually run (exactly this call) and its error is what the closure returns
+  ghost after dyncall 1 { let cmdErr := #ret }
+  ensures @runs-the-command [C17 C16] err == cmdErr
   ghost before dyncall 1 {
     assert @files [C16] len(#arg0) == 1 && #arg0[0] == o.GlobalConfig.DbFileName
   }
@@ -229,6 +244,8 @@ func NewCSVDatabaseResolvedCommand$1$1$1 returns (err)
   requires @sink o.ReporterConfig.Output != nil && !typeis(o.ReporterConfig.Output, "*bufio.Writer") && !typeis(o.ReporterConfig.Output, "*encoding/csv.Writer")
   modifies *
   modifies ghost(cbLen, cbErr, cbNode, cbStop, cbRet, cbLineNo, cbLine, cbHeader, cbElems, cbNElems, scRd, scPos, privLo, evOf, accKey, accP, accN, accH, bufSink, bufSticky, sinkFailed, sinkPend, prLen, prSink, prArg, prArgs, csvLen, csvW, csvN, csvRow, tnodes, tdepth, tmax, tmapOf, jlen, tvLen, tv, tseg, tvSet, adLen, adName, adVal, adSep, adRoot, procLen, procTime, procSrc, lastOpen, cfgRd)
+  ghost after call 1 CSVDatabaseResolved { let cmdErr := #ret }
+  ensures @runs-the-command [C17 C16] err == cmdErr
   ghost before call 1 CSVDatabaseResolved {
     assert @wiring [C16 C11 C13] #arg0 == streams[0] && #arg1.ParserConfig == o.ParserConfig && #arg1.ReporterConfig == o.ReporterConfig && #arg1.ResolverConfig == o.ResolverConfig
   }
